@@ -217,8 +217,13 @@ pub fn lifecycle(trace: &[Value]) -> Vec<Value> {
                     let mut all_close = !pk.is_empty();
                     let mut all_pathchal = !pk.is_empty();
                     let mut ae = false;
+                    // an application's close code or reason in a packet below 1-RTT protection
+                    let mut appearly = false;
                     for q in &pk {
                         let fr = frames_of(q);
+                        if q["ty"] != "S" && fr.iter().any(|f| f["f"] == "CONNECTION_CLOSE" && f["app"] == true) {
+                            appearly = true;
+                        }
                         if !fr.iter().any(|f| f["f"] == "CONNECTION_CLOSE") {
                             all_close = false;
                         }
@@ -241,7 +246,8 @@ pub fn lifecycle(trace: &[Value]) -> Vec<Value> {
                     };
                     out.push(json!({"ev":"Tx","t":e["t"],"st":st_name(&p["st"]),"kind":kind,
                         "close":p["close"],"ctm":p["tm"][2],"itm":p["tm"][1],
-                        "pto3":max_pto3(p).max(max_pto3(pre)),"ae":ae,"idle":p["idle"],"pidle":pre["idle"]}));
+                        "pto3":max_pto3(p).max(max_pto3(pre)),"ae":ae,"idle":p["idle"],"pidle":pre["idle"],
+                        "appearly":appearly}));
                     last_post = Some(p);
                 }
                 _ => {}
